@@ -8,7 +8,7 @@ prediction == logged decision, else the predicted arm's training statistic (or, 
 with is_quick=False, the row's neighbourhood statistic when it has one); evaluated counts must sum to the
 number of (batch / test) rows and the analyses must be ordered.
 
-As built: Neighbourhood records and sizes of Radius / KNearest simulators are recomputed independently in exact integer arithmetic from the inputs (history = training rows + earlier batches); a record counts as a neighbourhood statistic only if it holds observations. Multi-chunk runs through the GB-scale hook; one genuine > 1 GB simulation in the thorough tier. A sixth of the simulations have an arm that never occurs in the logged data; labels include large integral floats; radii on / a hair below row distances; threaded neighbourhood bandits as in C15.
+As built: Neighbourhood records and sizes of Radius / KNearest simulators are recomputed independently in exact integer arithmetic from the inputs (history = training rows + earlier batches); a record counts as a neighbourhood statistic only if it holds observations. Multi-chunk runs through the GB-scale hook; one genuine > 1 GB simulation in the thorough tier. A sixth of the simulations have an arm that never occurs in the logged data; labels include large integral floats; radii on / a hair below row distances; threaded neighbourhood bandits as in C15. Test sizes as in C15 (incl. pairs (n, test_size) for which int(n * (1 - test_size)) and n - ceil(n * test_size) differ).
 """
 from mon import env  # noqa: F401
 import math
